@@ -326,9 +326,11 @@ func main() {
 	r := vh.NewRng(o.Seed)
 	sum := vh.NewSummary("C01", o,
 		"histories of Read/RawRecord calls on real Transforms (seven built-in formats over generated and damaged inputs, plus a scripted caller-supplied handler); non-trivial = the history reaches a terminal result and issues >=1 further call after it; distinct by (handler kind, input/script, op list)")
-	// check_case_src: the hand-written model AND the interpretation of the statements extracted from
-	// transform.go (Gen/LatchShape.v) must both reproduce the logged run
-	cw := vh.NewCaseWriter(o, "C01", "Base.ErrClass Model.Latch Model.LatchShape", "c01case", "check_case_src")
+	cw := vh.NewCaseWriter(o, "C01", "Base.ErrClass Model.Latch", "c01case", "check_case")
+	// the same latch cases once more, through the interpretation of the statements extracted from
+	// transform.go (Gen/LatchShape.v); separate files, so that the hand-written model is still
+	// compared when the extracted shape is no longer recognised
+	cwSrc = vh.NewCaseWriter(o, "C01s", "Base.ErrClass Model.Latch Model.LatchShape", "c01case", "check_case_src")
 	fixtures := append(vh.Fixtures(), vh.ExtraFixtures()...)
 	total := o.Count(1500, 40000)
 	// a call into the library that never returns is a violation too ("every Read call returns"):
@@ -361,7 +363,8 @@ func main() {
 	if o.Replay != "" {
 		replay(o, sum, cw, fixtures, schemas)
 		cw.Flush()
-		sum.CaseFiles = cw.Files
+		cwSrc.Flush()
+		sum.CaseFiles = append(cw.Files, cwSrc.Files...)
 		sum.Write(o)
 		return
 	}
@@ -460,7 +463,8 @@ func main() {
 		finish(sum, cw, ei, fixtures[fi].Format, desc, log, res, log.FmtIdx)
 	}
 	cw.Flush()
-	sum.CaseFiles = cw.Files
+	cwSrc.Flush()
+	sum.CaseFiles = append(cw.Files, cwSrc.Files...)
 	sum.Write(o)
 }
 
@@ -581,6 +585,7 @@ func finish(sum *vh.Summary, cw *vh.CaseWriter, ei *vh.ErrIntern, kind string, d
 	}
 	term := fmt.Sprintf("LCase (mkLCase %s %s %s %s)", vh.CoqList(script), coqOps(res.Ops), coqOuts(res.Outs), vh.CoqN(log.IngCall))
 	cw.Add(term, desc)
+	cwSrc.Add(term, desc)
 
 	// ---- built-in ingester case: logged reader steps -> ingester results and reader calls ----
 	if fmtIdx >= 0 {
@@ -657,6 +662,8 @@ func fatalTypeName(fmtIdx int) string {
 	return []string{"csv.ErrInvalidHeader", "csv.ErrInvalidCSV", "edi.ErrInvalidEDI", "fixedlength.ErrInvalidEnvelope",
 		"fixedlength.ErrInvalidFixedLength", "json.ErrNodeReadingFailed", "xml.ErrNodeReadingFailed"}[fmtIdx]
 }
+
+var cwSrc *vh.CaseWriter
 
 func mockRawID(m *mockRaw, res *runResult) int { return m.id }
 
